@@ -155,6 +155,41 @@ Proof.
   - apply is_cached_ext. rewrite get_put_all, E. reflexivity.
 Qed.
 
+Lemma get_store_tile_other : forall c a b v, addr_eqb a b = false -> get (store_tile Q m ev c b v) a = get c a.
+Proof.
+  intros c a b v H. unfold store_tile. rewrite get_put, H. reflexivity.
+Qed.
+
+Lemma get_store_tile_cases : forall c a b v,
+  get (store_tile Q m ev c b v) a = get c a \/ get (store_tile Q m ev c b v) a = Some (mkEntry v (store_ts Q m ev)).
+Proof.
+  intros c a b v. destruct (addr_eqb a b) eqn:E; [|left; apply get_store_tile_other; exact E].
+  unfold store_tile. right. rewrite get_put, E. reflexivity.
+Qed.
+
+Lemma get_store_tiles_notin : forall l c a v,
+  existsb (addr_eqb a) l = false -> get (store_tiles Q m ev c l v) a = get c a.
+Proof.
+  induction l as [|b r IH]; intros c a v H; cbn [store_tiles]; [reflexivity|].
+  cbn [existsb] in H. apply orb_false_iff in H. destruct H as [H1 H2].
+  rewrite IH by exact H2. apply get_store_tile_other. exact H1.
+Qed.
+
+Lemma get_store_tiles_cases : forall l c a v,
+  get (store_tiles Q m ev c l v) a = get c a \/ get (store_tiles Q m ev c l v) a = Some (mkEntry v (store_ts Q m ev)).
+Proof.
+  induction l as [|b r IH]; intros c a v; cbn [store_tiles]; [left; reflexivity|].
+  destruct (IH (store_tile Q m ev c b v) a v) as [H|H]; [|right; exact H].
+  rewrite H. apply get_store_tile_cases.
+Qed.
+
+Lemma store_tiles_put_all : forall l c v,
+  store_tiles Q m ev c l v = put_all c l (mkEntry v (store_ts Q m ev)).
+Proof.
+  induction l as [|b r IH]; intros c v; cbn [store_tiles put_all]; [reflexivity|].
+  rewrite IH. reflexivity.
+Qed.
+
 (* an abstract creation step: `cover w` = tiles covered by the upstream request for work item w,
    `needs c w` = the re-check under the lock *)
 Section Loop.
@@ -163,7 +198,9 @@ Variable f : st -> W -> step.
 Variable cover : W -> list addr.
 Variable needs : cache -> W -> option bool.
 
-Definition new_entry (s : st) : entry := mkEntry (next_content s) (store_ts Q m ev).
+Definition answer_content (o : outcome) : Z := match o with UOk _ _ v => v | _ => 0 end.
+Definition new_content (s : st) : Z := apply_tile_filter m (answer_content (sc (length (s_log s)))).
+Definition new_entry (s : st) : entry := mkEntry (new_content s) (store_ts Q m ev).
 
 Definition step_spec : Prop := forall s w,
   match f s w with
@@ -171,16 +208,17 @@ Definition step_spec : Prop := forall s w,
       (s' = s /\ needs (s_cache s) w = Some true) \/
       (needs (s_cache s) w = Some false /\ s_log s' = cover w :: s_log s /\
        (s_cache s' = s_cache s \/
-        ((exists au, sc (length (s_log s)) = UOk true au) /\
-         s_cache s' = put_all (s_cache s) (cover w) (new_entry s))))
+        ((exists au v, sc (length (s_log s)) = UOk true au v) /\
+         s_cache s' = store_tiles Q m ev (s_cache s) (cover w) (new_content s))))
   | Stop s' e =>
       (s' = s /\ needs (s_cache s) w = None) \/
-      (needs (s_cache s) w = Some false /\ s_log s' = cover w :: s_log s /\ s_cache s' = s_cache s /\ e = ESource)
+      (needs (s_cache s) w = Some false /\ s_log s' = cover w :: s_log s /\ s_cache s' = s_cache s /\
+       (e = ESource \/ e = EBody))
   end.
 
 Definition step_ok : Prop := forall s w,
-  needs (s_cache s) w = Some false -> sc (length (s_log s)) = UOk true false ->
-  exists cr, f s w = Cont (mkSt (put_all (s_cache s) (cover w) (new_entry s)) (cover w :: s_log s)) cr.
+  needs (s_cache s) w = Some false -> (exists v, sc (length (s_log s)) = UOk true false v) ->
+  exists cr, f s w = Cont (mkSt (store_tiles Q m ev (s_cache s) (cover w) (new_content s)) (cover w :: s_log s)) cr.
 
 Definition needs_sound : Prop := forall c w, needs c w = Some true -> forall a, In a (cover w) -> cachedb c a = Some true.
 Definition needs_total : Prop := forall c w, expire_timestamp Q m ev <> ThrErr -> needs c w <> None.
@@ -216,7 +254,7 @@ Proof. intros ws s acc. destruct (loop_log ws s acc) as [new [-> _]]. rewrite ap
 Lemma loop_stop_called : forall ws s acc s' e,
   needs_total -> expire_timestamp Q m ev <> ThrErr ->
   create_loop f s acc ws = Stop s' e ->
-  e = ESource /\ exists new, s_log s' = new ++ s_log s /\ new <> [].
+  (e = ESource \/ e = EBody) /\ exists new, s_log s' = new ++ s_log s /\ new <> [].
 Proof.
   intros ws s acc s' e Htot Hthr. revert s acc.
   induction ws as [|w r IH]; intros s acc; cbn [create_loop]; [discriminate|].
@@ -252,7 +290,7 @@ Proof.
     + assert (Hw' : In w r).
       { destruct Hw as [<-|Hw]; [|exact Hw]. apply existsb_addr_In in Ha. congruence. }
       assert (Hc' : cachedb (s_cache s1) a = Some false).
-      { destruct Hcache as [->|[_ ->]]; [exact Hc|]. rewrite is_cached_put_all, E. exact Hc. }
+      { destruct Hcache as [->|[_ ->]]; [exact Hc|]. rewrite <- Hc. apply is_cached_ext. apply get_store_tiles_notin. exact E. }
       destruct (IH _ _ Hr a w Hw' Ha Hc') as [new [en [Hl [Hin Hae]]]].
       exists (new ++ [cover w0]), en. rewrite Hl, Hlog, <- app_assoc. split; [reflexivity|].
       split; [apply in_or_app; left; exact Hin | exact Hae].
@@ -272,8 +310,8 @@ Proof.
       assert (Hn : new = new' ++ [cover w]).
       { apply (app_inv_tail (s_log s)). rewrite <- Hl, Hl', Hlog, <- app_assoc. reflexivity. }
       subst new. rewrite (IH s1 _ a new' Hl').
-      * destruct Hcache as [->|[_ ->]]; [reflexivity|]. rewrite get_put_all.
-        destruct (existsb (addr_eqb a) (cover w)) eqn:E; [|reflexivity].
+      * destruct Hcache as [->|[_ ->]]; [reflexivity|].
+        destruct (existsb (addr_eqb a) (cover w)) eqn:E; [|apply get_store_tiles_notin; exact E].
         exfalso. apply (Hnot (cover w)); [apply in_or_app; right; left; reflexivity | apply existsb_addr_In; exact E].
       * intros en He. apply Hnot. apply in_or_app. left. exact He.
   - cbn [final] in *. destruct H as [[-> _] | [_ [_ [-> _]]]]; reflexivity.
@@ -281,7 +319,7 @@ Qed.
 
 (* L4: without a cacheable upstream answer the cache does not change *)
 Lemma loop_cache_unchanged : forall ws s acc,
-  (forall k au, (length (s_log s) <= k)%nat -> sc k <> UOk true au) ->
+  (forall k au v, (length (s_log s) <= k)%nat -> sc k <> UOk true au v) ->
   s_cache (final (create_loop f s acc ws)) = s_cache s.
 Proof.
   induction ws as [|w r IH]; intros s acc Hno; cbn [create_loop]; [reflexivity|].
@@ -289,8 +327,8 @@ Proof.
   - destruct H as [[-> _] | [_ [Hlog Hcache]]].
     + apply IH. exact Hno.
     + rewrite IH.
-      * destruct Hcache as [->|[[au Hau] _]]; [reflexivity|]. exfalso. exact (Hno _ au (le_n _) Hau).
-      * intros k au Hk. apply Hno. rewrite Hlog in Hk. cbn [length] in Hk. lia.
+      * destruct Hcache as [->|[[au [v Hau]] _]]; [reflexivity|]. exfalso. exact (Hno _ au v (le_n _) Hau).
+      * intros k au v Hk. apply Hno. rewrite Hlog in Hk. cbn [length] in Hk. lia.
   - cbn [final]. destruct H as [[-> _] | [_ [_ [-> _]]]]; reflexivity.
 Qed.
 
@@ -299,8 +337,8 @@ Lemma loop_entry_survives : forall ws s acc a e,
   get (s_cache s) a = Some e ->
   let s' := final (create_loop f s acc ws) in
   get (s_cache s') a = Some e \/
-  exists k au, (length (s_log s) <= k < length (s_log s'))%nat /\ sc k = UOk true au /\
-               get (s_cache s') a = Some (mkEntry (Z.of_nat k) (store_ts Q m ev)).
+  exists k au v, (length (s_log s) <= k < length (s_log s'))%nat /\ sc k = UOk true au v /\
+               get (s_cache s') a = Some (mkEntry (apply_tile_filter m v) (store_ts Q m ev)).
 Proof.
   induction ws as [|w r IH]; intros s acc a e Hg; cbn [create_loop]; [left; exact Hg|].
   pose proof (Hspec s w) as H. destruct (f s w) as [s1 cr|s1 e1].
@@ -308,17 +346,17 @@ Proof.
     + apply IH. exact Hg.
     + pose proof (loop_log_len r s1 (rev cr ++ acc)) as Hlen.
       assert (Hlen1 : length (s_log s1) = S (length (s_log s))) by (rewrite Hlog; reflexivity).
-      destruct Hcache as [Hc|[[au Hau] Hc]].
-      * rewrite <- Hc in Hg. destruct (IH s1 (rev cr ++ acc) a e Hg) as [IH1|[k [au [Hk [Hs Hg']]]]]; [left; exact IH1|].
-        right. exists k, au. split; [lia|]. split; assumption.
-      * destruct (existsb (addr_eqb a) (cover w)) eqn:E.
-        -- assert (Hg1 : get (s_cache s1) a = Some (new_entry s)) by (rewrite Hc, get_put_all, E; reflexivity).
-           destruct (IH s1 (rev cr ++ acc) a _ Hg1) as [IH1|[k [au' [Hk [Hs Hg']]]]].
-           ++ right. exists (length (s_log s)), au. split; [lia|]. split; [exact Hau | exact IH1].
-           ++ right. exists k, au'. split; [lia|]. split; assumption.
-        -- assert (Hg1 : get (s_cache s1) a = Some e) by (rewrite Hc, get_put_all, E; exact Hg).
-           destruct (IH s1 (rev cr ++ acc) a e Hg1) as [IH1|[k [au' [Hk [Hs Hg']]]]]; [left; exact IH1|].
-           right. exists k, au'. split; [lia|]. split; assumption.
+      destruct Hcache as [Hc|[[au [v Hau]] Hc]].
+      * rewrite <- Hc in Hg. destruct (IH s1 (rev cr ++ acc) a e Hg) as [IH1|[k [au [v [Hk [Hs Hg']]]]]]; [left; exact IH1|].
+        right. exists k, au, v. split; [lia|]. split; assumption.
+      * destruct (get_store_tiles_cases (cover w) (s_cache s) a (new_content s)) as [Hsame|Hnew]; rewrite <- Hc in *.
+        -- rewrite Hg in Hsame.
+           destruct (IH s1 (rev cr ++ acc) a e Hsame) as [IH1|[k [au' [v' [Hk [Hs Hg']]]]]]; [left; exact IH1|].
+           right. exists k, au', v'. split; [lia|]. split; assumption.
+        -- destruct (IH s1 (rev cr ++ acc) a _ Hnew) as [IH1|[k [au' [v' [Hk [Hs Hg']]]]]].
+           ++ right. exists (length (s_log s)), au, v. split; [lia|]. split; [exact Hau|].
+              rewrite IH1. unfold new_content. rewrite Hau. reflexivity.
+           ++ right. exists k, au', v'. split; [lia|]. split; assumption.
   - cbn [final]. left. destruct H as [[-> _] | [_ [_ [-> _]]]]; exact Hg.
 Qed.
 
@@ -328,7 +366,7 @@ Lemma loop_converges : forall ws s acc,
   step_ok -> needs_sound -> needs_total ->
   expire_timestamp Q m ev <> ThrErr ->
   (forall c a, cachedb (put c a (mkEntry 0 (store_ts Q m ev))) a = Some true) ->
-  (forall k, (length (s_log s) <= k)%nat -> sc k = UOk true false) ->
+  (forall k, (length (s_log s) <= k)%nat -> exists v, sc k = UOk true false v) ->
   exists s' cr, create_loop f s acc ws = Cont s' cr /\
     (forall a, cachedb (s_cache s) a = Some true -> cachedb (s_cache s') a = Some true) /\
     (forall w a, In w ws -> In a (cover w) -> cachedb (s_cache s') a = Some true).
@@ -349,8 +387,9 @@ Proof.
         intros w' a [<-|Hw] Ha; [apply Hkeep; exact (Hsound _ _ Hn a Ha) | exact (Hall w' a Hw Ha)].
       * destruct H as [[_ Hn'] | [Hn' _]]; discriminate.
     + destruct (Hok s w Hn (Hsc _ (le_n _))) as [cr Hf]. rewrite Hf.
-      set (s1 := mkSt (put_all (s_cache s) (cover w) (new_entry s)) (cover w :: s_log s)).
-      assert (Hsc1 : forall k, (length (s_log s1) <= k)%nat -> sc k = UOk true false).
+      rewrite store_tiles_put_all.
+      set (s1 := mkSt (put_all (s_cache s) (cover w) (mkEntry (new_content s) (store_ts Q m ev))) (cover w :: s_log s)).
+      assert (Hsc1 : forall k, (length (s_log s1) <= k)%nat -> exists v, sc k = UOk true false v).
       { intros k Hk. apply Hsc. cbn in Hk. lia. }
       destruct (IH s1 (rev cr ++ acc) Hsc1) as [s' [cr' [Hr [Hkeep Hall]]]].
       exists s', cr'. split; [exact Hr|]. split.
@@ -386,24 +425,25 @@ Proof.
   destruct (tm_is_cached Q m ev (s_cache s) a) as [[|]|] eqn:Hc.
   - left. split; reflexivity.
   - rewrite (is_stale_of_cached_false _ _ Hc). unfold next_outcome.
-    destruct (sc (length (s_log s))) as [cacheable auth| |] eqn:Ho.
+    unfold new_content. destruct (sc (length (s_log s))) as [cacheable auth v| | |] eqn:Ho.
     + destruct auth.
       * destruct (get (s_cache s) a).
         -- right. split; [reflexivity|]. split; [reflexivity|]. left. reflexivity.
         -- right. split; [reflexivity|]. split; [reflexivity|].
-           destruct cacheable; [right; split; [eexists; reflexivity | reflexivity] | left; reflexivity].
+           destruct cacheable; [right; split; [eexists; eexists; reflexivity | reflexivity] | left; reflexivity].
       * right. split; [reflexivity|]. split; [reflexivity|].
-        destruct cacheable; [right; split; [eexists; reflexivity | reflexivity] | left; reflexivity].
+        destruct cacheable; [right; split; [eexists; eexists; reflexivity | reflexivity] | left; reflexivity].
     + destruct (get (s_cache s) a).
       * right. split; [reflexivity|]. split; [reflexivity|]. left. reflexivity.
-      * right. split; [reflexivity|]. split; [reflexivity|]. split; reflexivity.
+      * right. split; [reflexivity|]. split; [reflexivity|]. split; [reflexivity | left; reflexivity].
     + right. split; [reflexivity|]. split; [reflexivity|]. left. reflexivity.
+    + right. split; [reflexivity|]. split; [reflexivity|]. split; [reflexivity | right; reflexivity].
   - left. split; reflexivity.
 Qed.
 
 Lemma single_ok : step_ok Q m ev sc addr (create_single Q m ev sc) cover1 (tm_is_cached Q m ev).
 Proof.
-  intros s a Hn Ho. unfold create_single. rewrite Hn. unfold next_outcome. rewrite Ho.
+  intros s a Hn [v Ho]. unfold create_single. rewrite Hn. unfold next_outcome, new_content. rewrite Ho.
   eexists. reflexivity.
 Qed.
 
@@ -445,17 +485,18 @@ Proof.
   intros s mt. unfold create_meta.
   destruct (all_cached Q m ev (s_cache s) mt) as [[|]|] eqn:Hc.
   - left. split; reflexivity.
-  - unfold next_outcome. destruct (sc (length (s_log s))) as [cacheable auth| |] eqn:Ho.
+  - unfold next_outcome, new_content. destruct (sc (length (s_log s))) as [cacheable auth v| | |] eqn:Ho.
     + right. split; [reflexivity|]. split; [reflexivity|].
-      destruct cacheable; [right; split; [exists auth; reflexivity | reflexivity] | left; reflexivity].
-    + right. split; [reflexivity|]. split; [reflexivity|]. split; reflexivity.
+      destruct cacheable; [right; split; [exists auth, v; reflexivity | reflexivity] | left; reflexivity].
+    + right. split; [reflexivity|]. split; [reflexivity|]. split; [reflexivity | left; reflexivity].
     + right. split; [reflexivity|]. split; [reflexivity|]. left. reflexivity.
+    + right. split; [reflexivity|]. split; [reflexivity|]. split; [reflexivity | right; reflexivity].
   - left. split; reflexivity.
 Qed.
 
 Lemma meta_ok : step_ok Q m ev sc (list addr) (create_meta Q m ev sc) coverm (all_cached Q m ev).
 Proof.
-  intros s mt Hn Ho. unfold create_meta. rewrite Hn. unfold next_outcome. rewrite Ho. eexists. reflexivity.
+  intros s mt Hn [v Ho]. unfold create_meta. rewrite Hn. unfold next_outcome, new_content. rewrite Ho. eexists. reflexivity.
 Qed.
 
 Lemma meta_sound : needs_sound Q m ev (list addr) coverm (all_cached Q m ev).
@@ -566,7 +607,7 @@ Lemma request_stale_refetched : forall s coords a s' r,
   cachedb (s_cache s) a = Some false ->
   load_tile_coords Q m ev sc members s coords = (s', r) ->
   exists new, s_log s' = new ++ s_log s /\ new <> [] /\
-    (r = Raised ESource \/ exists l entry, r = Served l /\ In entry new /\ In a entry).
+    ((r = Raised ESource \/ r = Raised EBody) \/ exists l entry, r = Served l /\ In entry new /\ In a entry).
 Proof.
   intros s coords a s' r Hin Hmem Hc H. pose proof (is_cached_some_thr Q m ev _ _ _ Hc) as Hthr.
   unfold load_tile_coords in H.
@@ -583,15 +624,15 @@ Proof.
         as [new [en [Hl [He Hae]]]].
       exists new. split; [exact Hl|]. split; [intros ->; destruct He|]. right. eexists; exists en. split; [reflexivity|]. split; assumption.
     + destruct (loop_stop_called Q m ev sc _ _ coverm _ (meta_spec Q m ev sc) _ _ _ _ _ (meta_total Q m ev) Hthr HR)
-        as [-> [new [Hl Hne]]].
-      exists new. split; [exact Hl|]. split; [exact Hne|]. left. reflexivity.
+        as [He [new [Hl Hne]]].
+      exists new. split; [exact Hl|]. split; [exact Hne|]. left. destruct He as [-> | ->]; [left | right]; reflexivity.
   - destruct (create_loop (create_single Q m ev sc) s [] (u :: us)) as [s1 cr|s1 e] eqn:HR; inversion H; subst.
     + destruct (loop_covers Q m ev sc _ _ cover1 _ (single_spec Q m ev sc) _ _ _ _ _ (single_sound Q m ev) HR a a Ha
                   (or_introl eq_refl) Hc) as [new [en [Hl [He Hae]]]].
       exists new. split; [exact Hl|]. split; [intros ->; destruct He|]. right. eexists; exists en. split; [reflexivity|]. split; assumption.
     + destruct (loop_stop_called Q m ev sc _ _ cover1 _ (single_spec Q m ev sc) _ _ _ _ _ (single_total Q m ev) Hthr HR)
-        as [-> [new [Hl Hne]]].
-      exists new. split; [exact Hl|]. split; [exact Hne|]. left. reflexivity.
+        as [He [new [Hl Hne]]].
+      exists new. split; [exact Hl|]. split; [exact Hne|]. left. destruct He as [-> | ->]; [left | right]; reflexivity.
 Qed.
 
 Lemma request_final : forall s coords,
@@ -611,7 +652,7 @@ Qed.
 
 (* a request whose upstream answers are all failures / blank / uncacheable leaves the cache as it was *)
 Lemma request_failed_keeps_cache : forall s coords,
-  (forall k au, (length (s_log s) <= k)%nat -> sc k <> UOk true au) ->
+  (forall k au v, (length (s_log s) <= k)%nat -> sc k <> UOk true au v) ->
   s_cache (fst (load_tile_coords Q m ev sc members s coords)) = s_cache s.
 Proof.
   intros s coords Hno. destruct (request_final s coords) as [H|[H|[u [us [H ->]]]]].
@@ -628,8 +669,8 @@ Lemma request_entry_survives : forall s coords a e,
   get (s_cache s) a = Some e ->
   let s' := fst (load_tile_coords Q m ev sc members s coords) in
   get (s_cache s') a = Some e \/
-  exists k au, (length (s_log s) <= k < length (s_log s'))%nat /\ sc k = UOk true au /\
-               get (s_cache s') a = Some (mkEntry (Z.of_nat k) (store_ts Q m ev)).
+  exists k au v, (length (s_log s) <= k < length (s_log s'))%nat /\ sc k = UOk true au v /\
+               get (s_cache s') a = Some (mkEntry (apply_tile_filter m v) (store_ts Q m ev)).
 Proof.
   intros s coords a e Hg. destruct (request_final s coords) as [H|[H|[u [us [H Hf]]]]].
   - left. unfold load_tile_coords. rewrite H. exact Hg.
@@ -694,7 +735,7 @@ Lemma request_converges : forall s coords t,
   0 < Q -> 0 <= now ev ->
   expire_timestamp Q m ev = ThrAt t -> t < floor_sec Q (now ev) ->
   (forall a, In a coords -> In a (members a)) ->
-  (forall k, (length (s_log s) <= k)%nat -> sc k = UOk true false) ->
+  (forall k, (length (s_log s) <= k)%nat -> exists v, sc k = UOk true false v) ->
   exists s' l, load_tile_coords Q m ev sc members s coords = (s', Served l) /\
     (forall a, In a coords -> cachedb (s_cache s') a = Some true) /\
     (forall a, cachedb (s_cache s) a = Some true -> cachedb (s_cache s') a = Some true).
@@ -806,7 +847,7 @@ Lemma request_keeps : forall m ev s coords a en,
 Proof.
   intros m ev s coords a en Hg.
   pose proof (request_entry_survives Q m ev sc members s coords a en Hg) as H. cbv zeta in H.
-  destruct H as [H|[k [au [_ [_ H]]]]]; eexists; exact H.
+  destruct H as [H|[k [au [v [_ [_ H]]]]]]; eexists; exact H.
 Qed.
 
 Lemma request_log_grows : forall m ev s coords,
@@ -844,13 +885,13 @@ Proof.
 Qed.
 
 Lemma seed_walk_down : forall mains m ev s skip,
-  (forall k au, sc k <> UOk true au) ->
+  (forall k au v, sc k <> UOk true au v) ->
   s_cache (fst (fst (seed_walk Q m ev sc members s skip mains))) = s_cache s.
 Proof.
   induction mains as [|t r IH]; intros m ev s skip Hno; cbn [seed_walk]; [reflexivity|].
   destruct (seed_select Q m ev (s_cache s) skip (members t)) as [[|x h]|].
   - exact (IH m ev s skip Hno).
-  - pose proof (request_failed_keeps_cache Q m ev sc members s (x :: h) (fun k au _ => Hno k au)) as H1.
+  - pose proof (request_failed_keeps_cache Q m ev sc members s (x :: h) (fun k au v _ => Hno k au v)) as H1.
     pose proof (IH m ev (fst (load_tile_coords Q m ev sc members s (x :: h))) skip Hno) as H2.
     destruct (seed_walk Q m ev sc members (fst (load_tile_coords Q m ev sc members s (x :: h))) skip r) as [[s2 hs] ok].
     cbn [fst] in *. congruence.
@@ -864,7 +905,7 @@ Proof.
   intros w e a en Hg. destruct e as [coords|b|t|t|rb ex|refresh skip mains]; cbn [step_event].
   - pose proof (request_entry_survives Q (w_mgr w) (w_env w) sc members (w_st w) coords a en Hg) as H. cbv zeta in H.
     destruct (load_tile_coords Q (w_mgr w) (w_env w) sc members (w_st w) coords) as [s' r]. cbn [fst w_st] in *.
-    destruct H as [H|[k [au [_ [_ H]]]]]; eexists; exact H.
+    destruct H as [H|[k [au [v [_ [_ H]]]]]]; eexists; exact H.
   - exists en. exact Hg.
   - exists en. exact Hg.
   - exists en. exact Hg.
@@ -909,13 +950,13 @@ Qed.
 
 (* with the upstream down for the whole history, the cache never changes *)
 Lemma history_upstream_down : forall es w,
-  (forall k au, sc k <> UOk true au) ->
+  (forall k au v, sc k <> UOk true au v) ->
   s_cache (w_st (fst (run Q sc members w es))) = s_cache (w_st w).
 Proof.
   induction es as [|e r IH]; intros w Hno; cbn [run]; [reflexivity|].
   assert (H1 : s_cache (w_st (fst (step_event Q sc members w e))) = s_cache (w_st w)).
   { destruct e as [coords|b|t|t|rb ex|refresh skip mains]; cbn [step_event]; try reflexivity.
-    - pose proof (request_failed_keeps_cache Q (w_mgr w) (w_env w) sc members (w_st w) coords (fun k au _ => Hno k au)) as H.
+    - pose proof (request_failed_keeps_cache Q (w_mgr w) (w_env w) sc members (w_st w) coords (fun k au v _ => Hno k au v)) as H.
       destruct (load_tile_coords Q (w_mgr w) (w_env w) sc members (w_st w) coords) as [s' r']. exact H.
     - match goal with |- context [seed_walk Q ?m' ?ev' sc members ?s0 skip mains] =>
         pose proof (seed_walk_down mains m' ev' s0 skip Hno) as H;
@@ -936,12 +977,12 @@ Definition a1 : addr := (1, 0, 2).
 Definition a2 : addr := (0, 1, 2).
 Definition a3 : addr := (1, 1, 2).
 (* relative rule "2 seconds", clock at 1000000010.0 s: threshold = 1000000008 s = tick 4000000032 *)
-Definition m_rel := mkMgr (Some (mkRconf None false 0 0 0 0 8)) None false false.
-Definition m_rel_meta := mkMgr (Some (mkRconf None false 0 0 0 0 8)) None true true.
+Definition m_rel := mkMgr (Some (mkRconf None false 0 0 0 0 8)) None false false 0 false.
+Definition m_rel_meta := mkMgr (Some (mkRconf None false 0 0 0 0 8)) None true true 0 false.
 Definition ev := mkEnv 4000000040 None.
 (* a0 written at ...07.5 s (stale), a1 at ...09.25 s (fresh), a2 at ...08.25 s (after the threshold, same second) *)
 Definition c : cache := [(a0, mkEntry 100 4000000030); (a1, mkEntry 101 4000000037); (a2, mkEntry 102 4000000033)].
-Definition all_ok (k : nat) := UOk true false.
+Definition all_ok (k : nat) := UOk true false (Z.of_nat k).
 Definition all_err (k : nat) := UErr.
 Definition single (a : addr) := [a].
 Definition block (a : addr) := [a2; a3; a0; a1].
@@ -1001,7 +1042,7 @@ Qed.
 
 (* a rule "0 seconds" never accepts a tile written in the current second: refresh cannot converge there *)
 Example ex_zero_age_never_fresh :
-  let m0 := mkMgr (Some (mkRconf None false 0 0 0 0 0)) None false false in
+  let m0 := mkMgr (Some (mkRconf None false 0 0 0 0 0)) None false false 0 false in
   tm_is_cached Ex.q m0 Ex.ev (put [] Ex.a0 (mkEntry 7 (store_ts Ex.q m0 Ex.ev))) Ex.a0 = Some false.
 Proof. vm_compute. reflexivity. Qed.
 
@@ -1013,7 +1054,7 @@ Lemma stale_refetched_lemma : forall Q m ev sc members s coords a e t s' r,
   get (s_cache s) a = Some e -> 0 <= e_ts e -> e_ts e <= t ->
   load_tile_coords Q m ev sc members s coords = (s', r) ->
   exists new, s_log s' = new ++ s_log s /\ new <> [] /\
-    (r = Raised ESource \/ exists l entry, r = Served l /\ In entry new /\ In a entry).
+    ((r = Raised ESource \/ r = Raised EBody) \/ exists l entry, r = Served l /\ In entry new /\ In a entry).
 Proof.
   intros Q m ev sc members s coords a e t s' r HQ Ht Hin Hmem Hg H0 Hle H.
   apply (request_stale_refetched Q m ev sc members s coords a s' r Hin Hmem); [|exact H].
@@ -1025,7 +1066,7 @@ Lemma missing_fetched_lemma : forall Q m ev sc members s coords a s' r,
   In a coords -> In a (members a) -> get (s_cache s) a = None ->
   load_tile_coords Q m ev sc members s coords = (s', r) ->
   exists new, s_log s' = new ++ s_log s /\ new <> [] /\
-    (r = Raised ESource \/ exists l entry, r = Served l /\ In entry new /\ In a entry).
+    ((r = Raised ESource \/ r = Raised EBody) \/ exists l entry, r = Served l /\ In entry new /\ In a entry).
 Proof.
   intros Q m ev sc members s coords a s' r Ht Hin Hmem Hg H.
   apply (request_stale_refetched Q m ev sc members s coords a s' r Hin Hmem); [|exact H].
@@ -1077,7 +1118,7 @@ Lemma refresh_then_cached_lemma : forall Q m ev sc members s coords t,
   0 < Q -> 0 <= now ev ->
   expire_timestamp Q m ev = ThrAt t -> t < floor_sec Q (now ev) ->
   (forall a, In a coords -> In a (members a)) ->
-  (forall k, (length (s_log s) <= k)%nat -> sc k = UOk true false) ->
+  (forall k, (length (s_log s) <= k)%nat -> exists v, sc k = UOk true false v) ->
   exists s' l, load_tile_coords Q m ev sc members s coords = (s', Served l) /\
     (forall a, In a coords -> tm_is_cached Q m ev (s_cache s') a = Some true) /\
     load_tile_coords Q m ev sc members s' coords = (s', Served (map (content_of (s_cache s')) coords)).
@@ -1203,7 +1244,7 @@ Lemma seed_handed_refetched : forall skip s t h a s' r,
   seed_select Q m ev (s_cache s) skip (members t) = Some h -> In a h -> In a (members a) ->
   load_tile_coords Q m ev sc members s h = (s', r) ->
   exists new, s_log s' = new ++ s_log s /\ new <> [] /\
-    (r = Raised ESource \/ exists l entry, r = Served l /\ In entry new /\ In a entry).
+    ((r = Raised ESource \/ r = Raised EBody) \/ exists l entry, r = Served l /\ In entry new /\ In a entry).
 Proof.
   intros skip s t h a s' r Hsel Hah Hmem H.
   apply (request_stale_refetched Q m ev sc members s h a s' r Hah Hmem); [|exact H].
@@ -1215,9 +1256,30 @@ End SeedWalk.
 (* non-vacuity: the state of the former finding (main tile a0 fresh, member a1 stale, threshold 1000000008 s):
    the repaired walker hands over [a1] and the meta tile is fetched again *)
 Example ex_seed_walk_mixed_meta_tile :
-  let m := mkMgr None (Some 4000000032) true false in
+  let m := mkMgr None (Some 4000000032) true false 0 false in
   let c := [(Ex.a0, mkEntry 100 4000000036); (Ex.a1, mkEntry 101 4000000030);
             (Ex.a2, mkEntry 102 4000000036); (Ex.a3, mkEntry 103 4000000036)] in
   seed_walk Ex.q m Ex.ev Ex.all_ok Ex.block (mkSt c []) false [Ex.a0] =
   (mkSt (put_all c [Ex.a2; Ex.a3; Ex.a0; Ex.a1] (mkEntry 0 4000000040)) [[Ex.a2; Ex.a3; Ex.a0; Ex.a1]], [[Ex.a1]], true).
+Proof. vm_compute. reflexivity. Qed.
+
+(* linked single colour tiles (symlink mode, after the repair of F48): a refresh whose answer has the colour the
+   stale tile already has still makes the tile fresh *)
+Example ex_linked_same_colour_refresh :
+  let m := mkMgr (Some (mkRconf None false 0 0 0 0 8)) None false false 0 true in
+  let s1 := fst (load_tile_coords Ex.q m Ex.ev (fun _ => UOk true false 100) Ex.single Ex.s0 [Ex.a0]) in
+  tm_is_cached Ex.q m Ex.ev (s_cache s1) Ex.a0 = Some true /\
+  load_tile_coords Ex.q m Ex.ev (fun _ => UOk true false 100) Ex.single s1 [Ex.a0] = (s1, Served [Some 100]).
+Proof. vm_compute. split; reflexivity. Qed.
+
+(* pre_store_filter and an uncacheable answer: the filtered image is served, nothing is stored; a broken body is an
+   error of the request and leaves the cache alone *)
+Example ex_filter_uncacheable :
+  let m := mkMgr (Some (mkRconf None false 0 0 0 0 8)) None false false 1000 false in
+  load_tile_coords Ex.q m Ex.ev (fun _ => UOk false false 7) Ex.single Ex.s0 [Ex.a0] =
+  (mkSt Ex.c [[Ex.a0]], Served [Some 1007]).
+Proof. vm_compute. reflexivity. Qed.
+
+Example ex_broken_body :
+  load_tile_coords Ex.q Ex.m_rel Ex.ev (fun _ => UBroken) Ex.single Ex.s0 [Ex.a0] = (mkSt Ex.c [[Ex.a0]], Raised EBody).
 Proof. vm_compute. reflexivity. Qed.
